@@ -323,6 +323,20 @@ def prop(case):
     if any("_" in c[0] for ch in chains for c in ch):
         # a chain member whose name looks like a merged name: once it is gone a merged segment may take its
         # name, and the comparison by names below cannot tell the two apart
+        # -- the merge itself still has to go through and leave a coherent graph
+        if not case.get("cli"):
+            mopts = dict(case.get("merge_opts") or {})
+            try:
+                g.merge_linear_paths(**mopts)
+            except Exception as e:
+                raise Violation("merge-raised", "merge_linear_paths(%r) raised %s: %s\n%s" % (mopts, type(e).__name__, str(e)[:300], text),
+                                "%s/underscore-name" % type(e).__name__)
+            probs = O.invariants(g)
+            if probs:
+                raise Violation("invariant", "after merging: %s\n%s\n-- after --\n%s" % (probs[:4], text, str(g)))
+            if len(g.segment_names) != len(graph.segs) - sum(len(ch) - 1 for ch in chains):
+                raise Violation("segments", "%d segments after merging %d chain(s) with %d members in all, of %d segments\n%s\n-- after --\n%s" % (
+                    len(g.segment_names), len(chains), sum(len(ch) for ch in chains), len(graph.segs), text, str(g)))
         return {"nt": False, "member_named_like_merged": True}
     # ---- merge
     comps_before = M.ModelDoc.from_doc({"version": doc["version"], "lines": doc["lines"]}).components()
@@ -552,6 +566,18 @@ def build_chain_graph(r):
                             l[1][0] = new
                         if l[1][2] == old:
                             l[1][2] = new
+    if gen.fair(r, 0.08):
+        # a segment (often a chain member) whose name begins or ends with the separator of merged names
+        old = gen.choice(r, names)
+        new = gen.choice(r, [old + "_", "_" + old, old + "__x", "(" + old + ")"])
+        for l in lines:
+            if l[0] == "S" and l[1][0] == old:
+                l[1][0] = new
+            elif l[0] in "LC":
+                if l[1][0] == old:
+                    l[1][0] = new
+                if l[1][2] == old:
+                    l[1][2] = new
     return {"version": "gfa1", "lines": lines}
 
 
